@@ -52,6 +52,8 @@ type tcase struct {
 	IntervalNS  int64     `json:"interval_ns"`
 	// Orders permute the datapoints of all series, flattened series by series
 	Orders [2]order `json:"orders"`
+	// Report marks a witness of the reporting oracle (replay runs that oracle too)
+	Report bool `json:"report,omitempty"`
 }
 
 func (cs *tcase) total() int {
@@ -257,6 +259,18 @@ func (cs *tcase) metric(flat int, ts int64) *gostatsd.Metric {
 // run merges the datapoints in the given order, through maps built by the real MetricMap.Receive (as the
 // parser builds them), flushes, and returns what the flushed map shows per series key.
 func (cs *tcase) run(o order) (map[string]observed, int) {
+	return cs.runWith(o, nil, nil)
+}
+
+// runWith is run with one metric name per series (names, nil = the shared name) and a tap that is given the
+// flushed map inside Process (the reporting oracle hands it to real backends).
+func (cs *tcase) runWith(o order, names []string, tap func(*gostatsd.MetricMap)) (map[string]observed, int) {
+	nameOf := func(si int) string {
+		if names == nil {
+			return seriesName
+		}
+		return names[si]
+	}
 	agg := statsd.NewMetricAggregator(append([]float64(nil), cs.Percentiles...), 0, 0, 0, 0, subtypes(cs.Disabled), cs.Limit)
 	interval := time.Duration(cs.IntervalNS)
 	// a series goes through one complete flush cycle first when the order is "warm", and always when it
@@ -269,7 +283,7 @@ func (cs *tcase) run(o order) (map[string]observed, int) {
 			continue
 		}
 		for _, v := range []float64{7, 9, 1000003} {
-			mm.Receive(&gostatsd.Metric{Name: seriesName, Type: gostatsd.TIMER, Value: v, Rate: 0.5, Tags: se.allTags(), Source: gostatsd.Source(se.Source), Timestamp: 1})
+			mm.Receive(&gostatsd.Metric{Name: nameOf(si), Type: gostatsd.TIMER, Value: v, Rate: 0.5, Tags: se.allTags(), Source: gostatsd.Source(se.Source), Timestamp: 1})
 			warmed++
 		}
 	}
@@ -286,7 +300,10 @@ func (cs *tcase) run(o order) (map[string]observed, int) {
 			mm.Receive(&gostatsd.Metric{Name: "decoy", Type: gostatsd.TIMER, Value: -123456, Rate: 0.25, Tags: gostatsd.Tags{"env:x"}, Timestamp: 5})
 		}
 		for _, flat := range o.Perm[pos : pos+c] {
-			mm.Receive(cs.metric(flat, int64(100+flat)))
+			m := cs.metric(flat, int64(100+flat))
+			si, _ := cs.locate(flat)
+			m.Name = nameOf(si)
+			mm.Receive(m)
 		}
 		pos += c
 		if ci%2 == 1 { // unrelated series in the same batch must not leak into ours
@@ -295,16 +312,24 @@ func (cs *tcase) run(o order) (map[string]observed, int) {
 		}
 		agg.ReceiveMap(mm)
 	}
+	if tap != nil { // a set sorts last in every text payload: the sentinel marks the end of the stdout capture
+		mm := gostatsd.NewMetricMap(false)
+		mm.Receive(&gostatsd.Metric{Name: sentinelName, Type: gostatsd.SET, StringValue: "x", Rate: 1, Timestamp: 5})
+		agg.ReceiveMap(mm)
+	}
 	agg.Flush(interval)
 	out := map[string]observed{}
 	others := 0
 	want := map[string]bool{}
 	for si := range cs.Series {
-		want[cs.Series[si].key()] = true
+		want[nameOf(si)+"|"+cs.Series[si].key()] = true
 	}
 	agg.Process(func(mm *gostatsd.MetricMap) {
+		if tap != nil {
+			tap(mm)
+		}
 		mm.Timers.Each(func(name, tagsKey string, t gostatsd.Timer) {
-			if name != seriesName || !want[tagsKey] {
+			if !want[name+"|"+tagsKey] {
 				others++
 				return
 			}
@@ -341,7 +366,8 @@ func (cs *tcase) run(o order) (map[string]observed, int) {
 // comparison
 
 type checker struct {
-	r *mon.Run
+	r  *mon.Run
+	rp *reporters // real backends of the reporting oracle (report_test.go)
 }
 
 func (c *checker) same(exact bool, got, want, scale float64) bool {
@@ -419,6 +445,19 @@ func (c *checker) compare(cs *tcase, se *series, rt *refTimer, ob observed) [][2
 	if rt.n == 0 {
 		if t.Count != 0 || t.PerSecond != 0 || len(t.Percentiles) != 0 || len(t.Values) != 0 {
 			add("idle-timer", "idle persisted timer reports count=%d per-second=%v percentiles=%v values=%v", t.Count, t.PerSecond, t.Percentiles, t.Values)
+		}
+		// the sum and the sum of squares of the empty multiset are 0
+		if t.Sum != 0 {
+			add("idle-timer:sum", "idle persisted timer (no values this interval) reports sum=%v, want 0", t.Sum)
+		}
+		if t.SumSquares != 0 {
+			add("idle-timer:sum_squares", "idle persisted timer (no values this interval) reports sum_squares=%v, want 0", t.SumSquares)
+		}
+		// min, max, mean, median and std-dev of the empty multiset are undefined: recorded, not asserted
+		if t.Min != 0 || t.Max != 0 || t.Mean != 0 || t.Median != 0 || t.StdDev != 0 {
+			c.r.Event("idle_timer_undefined_stats_nonzero", 1)
+		} else {
+			c.r.Event("idle_timer_undefined_stats_zero", 1)
 		}
 		return out
 	}
@@ -821,9 +860,16 @@ func describe(cs *tcase) string {
 func TestCheck(t *testing.T) {
 	r := mon.Start(t, "C08")
 	defer r.Finish()
-	r.Rule("cases: (multisets, configuration) pairs — 1..6 timer series under ONE metric name (different tag sets and sources; 75% of the cases have 2..6), each with its own multiset of n from {0 (idle persisted series after a Reset),1,2,3,4..200} values: integer-valued values with dyadic rates from {1/8..4} (exact comparison) or arbitrary finite floats with rates in (0,4) (1e-9 relative tolerance, scaled by the magnitude of the inputs for sums); 0..6 integer percentiles in [-100,100] (pool with ±100 ±90 ±50 ±1 0), random sub-metric masks, flush intervals from 1ns to 1h, a third of the series tagged gsd_histogram with bounds equal to values, duplicates and malformed items, limits {0,1,2,3,5,MaxUint32}; the datapoints of all series are interleaved in two different arrival orders, split over several batches, each batch turned into a map by the real MetricMap.Receive (as the parser does, so a series is first / not first of its name in a map, with a sampled first datapoint) and merged by ReceiveMap into a fresh or a warmed (one earlier flush/Reset) MetricAggregator, then Flush + Process; every field of every series is compared with an independent reference (count = round(sum 1/rate), sort, rank = floor(|p|/100*n+0.5), k lowest/highest, population std-dev, #values <= bound). Non-trivial: a series with n >= 2 and at least one percentile of each sign, or a histogram with >= 2 kept bounds; distinct by (series-per-name class, variant, n class, percentile list) resp. (series-per-name class, n class, limit, number of kept bounds).")
+	r.Rule("cases: (multisets, configuration) pairs — 1..6 timer series under ONE metric name (different tag sets and sources; 75% of the cases have 2..6), each with its own multiset of n from {0 (idle persisted series after a Reset),1,2,3,4..200} values: integer-valued values with dyadic rates from {1/8..4} (exact comparison) or arbitrary finite floats with rates in (0,4) (1e-9 relative tolerance, scaled by the magnitude of the inputs for sums); 0..6 integer percentiles in [-100,100] (pool with ±100 ±90 ±50 ±1 0), random sub-metric masks, flush intervals from 1ns to 1h, a third of the series tagged gsd_histogram with bounds equal to values, duplicates and malformed items, limits {0,1,2,3,5,MaxUint32}; the datapoints of all series are interleaved in two different arrival orders, split over several batches, each batch turned into a map by the real MetricMap.Receive (as the parser does, so a series is first / not first of its name in a map, with a sampled first datapoint) and merged by ReceiveMap into a fresh or a warmed (one earlier flush/Reset) MetricAggregator, then Flush + Process; every field of every series is compared with an independent reference (count = round(sum 1/rate), sort, rank = floor(|p|/100*n+0.5), k lowest/highest, population std-dev, #values <= bound). Idle timers must also report sum 0 and sum of squares 0 (min/max/mean/median/std-dev of the empty multiset are only recorded). Reporting oracle: every 25th case and the histogram corpus are flushed once more with one name per series and the map is handed to the real stdout backend (captured by a logrus hook) and the real graphite backend in tags mode (scripted connection); per series the text payloads must show no summary statistic for a gsd_histogram timer, nothing at all with limit 0, and exactly the reference buckets otherwise. Non-trivial: a series with n >= 2 and at least one percentile of each sign, or a histogram with >= 2 kept bounds; distinct by (series-per-name class, variant, n class, percentile list) resp. (series-per-name class, n class, limit, number of kept bounds).")
 	r.Assume("strconv.ParseFloat defines which histogram bounds are parsable; gostatsd.MetricMap.Receive/Merge deliver the datapoints (C07)")
 	c := &checker{r: r}
+	if rp, err := newReporters(); err != nil {
+		t.Logf("reporting oracle unavailable: %v", err)
+		r.Inconclusive("report-backends-unavailable")
+	} else {
+		c.rp = rp
+		defer rp.cancel()
+	}
 
 	if p := r.ReplayPayload(); p != nil {
 		cs, ok := mon.ReplayCase(p, &tcase{}).(*tcase)
@@ -831,6 +877,9 @@ func TestCheck(t *testing.T) {
 			t.Skip("no case in replay file")
 		}
 		c.eval(cs)
+		if cs.Report {
+			c.evalReport(cs)
+		}
 		r.Nontrivial("replay-a")
 		r.Nontrivial("replay-b")
 		return
@@ -842,6 +891,9 @@ func TestCheck(t *testing.T) {
 		cs := genCase(rng)
 		r.Case("case %d %s", i, describe(cs))
 		c.eval(cs)
+		if i%25 == 0 { // reporting oracle: the flushed map through real stdout and graphite backends
+			c.evalReport(cs)
+		}
 		if r.WantSample() && len(cs.Series) >= 2 && cs.total() >= 3 && cs.total() <= 8 && len(cs.Percentiles) >= 2 && i%7 == 0 {
 			r.Sample(cs)
 		}
@@ -850,6 +902,9 @@ func TestCheck(t *testing.T) {
 		for _, cs := range corpus() {
 			r.Case("corpus %s", describe(cs))
 			c.eval(cs)
+			if cs.Series[0].HistTag != "" {
+				c.evalReport(cs)
+			}
 		}
 		r.Event("boundary_corpus", len(corpus()))
 	}
